@@ -4,7 +4,7 @@ import io
 
 from hypothesis import strategies as st
 
-from .. import events as EV, files, kmodel, scenario as SC, strategies as S
+from .. import cli as CLI, events as EV, files, kmodel, scenario as SC, strategies as S
 from ..core import Violation, guard
 from ..io_util import BudgetReader, ReadBudgetExceeded
 
@@ -17,7 +17,8 @@ RULE = ('dumps: small version-2 and version-3 files (<= 14 records from scenario
         'the events, traces (text), formatted event lines and formatted trace lines reported before stopping are a '
         'prefix of the complete dump\'s; every trace is rendered when yielded and again after the stream ended (text and '
         'window length must agree); print_with_count(gen, c) prints exactly the first c lines for c in {0, 1, k, total, '
-        'total+5, -1}. Non-trivial: the cut falls strictly inside a record, the thread map, a filler, a chunk header or '
+        'total+5, -1}; sub-check cli: the four listing commands of the command line with `-c N` / `--count N` print exactly the '
+        'first N items of what they print without the option (N in {0, 1, k, total, total+5}). Non-trivial: the cut falls strictly inside a record, the thread map, a filler, a chunk header or '
         'a block; distinct by (file digest, offset).')
 ASSUMPTIONS = ['linear reading is decided by a read-call budget of 8*len+4096 on a counting reader',
                'the first record of a dump does not begin with 0x00 (K1, see C02)',
@@ -174,7 +175,20 @@ def prop_count(ctx, case):
             ctx.note([blob, kind, c], nontrivial=0 < c < total, classes=['count', kind])
 
 
-PROPS = {'cut': prop_cut, 'count': prop_count}
+def prop_cli_count(ctx, case):
+    """`<listing command> -c N DUMP` prints the first N items of `<listing command> DUMP`"""
+    blob, bounds, version = build(case['spec'])
+    for cmd in (('kevents', 'traces', 'callstacks') if version == 2 else ('kevents', 'logs')):
+        o = {'show_tid': case['show_tid'], 'color': False, 'radix': case['k']}
+        items = guard(CLI.reference_items, cmd, o, blob)
+        CLI.expect(cmd, o, blob, items, 'without --count everything is printed')
+        total = len(items)
+        for c in sorted({0, 1, case['k'] % (total + 1), total, total + 5}):
+            CLI.expect(cmd, dict(o, count=c), blob, items[:c], f'--count {c} prints the first {min(c, total)} of {total} items')
+            ctx.note([blob, cmd, c, case['show_tid']], nontrivial=0 < c < total, classes=['cli-count', cmd])
+
+
+PROPS = {'cut': prop_cut, 'count': prop_count, 'cli_count': prop_cli_count}
 
 
 def spec_strategy(version):
@@ -194,3 +208,8 @@ def run(ctx):
         ctx.run_given('cut', strat, prop_cut, ctx.n(10, 5))
     cstrat = st.fixed_dictionaries({'spec': spec_strategy(2), 'k': st.integers(0, 40)})
     ctx.run_given('count', cstrat, prop_count, ctx.n(60, 200))
+    if ctx.failures:
+        return          # the command line reads real files without a read budget: not on a tree that already fails
+    for version in (2, 3):
+        clis = st.fixed_dictionaries({'spec': spec_strategy(version), 'k': st.integers(0, 40), 'show_tid': st.sampled_from([None, True, False])})
+        ctx.run_given('cli_count', clis, prop_cli_count, ctx.n(20, 100))
